@@ -57,7 +57,7 @@ use mzv::{
         catalogue::bound_instance,
         logged_hash::{take_elements, Element, LoggedTranscript},
         plonk_util::params_for,
-        ref_eval::{collect, CollectOpts, Tables},
+        ref_eval::{collect, CellRef, CollectOpts, Failure, Tables},
         relations::ArithRel,
     },
 };
@@ -387,6 +387,9 @@ pub struct RunSpec {
     pub kind: WitnessKind,
     /// positions of the outer instance edited (+1) on this run's tables
     pub edit_positions: EditPlan,
+    /// evaluate every constraint (not only those reading the changed cells) for the first
+    /// alternative claim of the run
+    pub full_first_claim: bool,
 }
 
 #[derive(Clone, Debug)]
@@ -432,10 +435,95 @@ pub fn corrupt(case: &InnerCase, kind: &WitnessKind) -> Option<(Vec<F>, Vec<u8>)
 struct TwoTables {
     tables: Tables<F>,
     mock: MockProver<F>,
-    instance_in_gates: bool,
+    /// a lookup or trash expression reads an instance column: no incremental evaluation then
+    instance_beyond_gates: bool,
+    /// rotations at which gates read instance column 1
+    instance_rotations: Vec<i32>,
+    /// positions of instance column 1 currently different from the fully evaluated instance
+    base: Vec<F>,
+}
+
+fn reads_instance(t: &Tables<F>, e: &midnight_proofs::plonk::Expression<F>) -> bool {
+    let mut set = std::collections::BTreeSet::new();
+    t.cells_read(e, 0, &mut set);
+    set.iter().any(|c| matches!(c, CellRef::Instance(_, _)))
+}
+
+/// Every constraint of the reference evaluator, gates spread over the rayon pool by row chunks.
+fn ref_full(t: &Tables<F>, cap: usize) -> Vec<Failure> {
+    const CHUNK: usize = 2048;
+    let starts: Vec<usize> = (0..t.usable_rows).step_by(CHUNK).collect();
+    let (gates, (lookups, (copies, trash))) = rayon::join(
+        || {
+            starts
+                .par_iter()
+                .flat_map(|s| {
+                    let mut o = vec![];
+                    t.gate_failures(*s..(*s + CHUNK).min(t.usable_rows), &mut o, cap);
+                    o
+                })
+                .collect::<Vec<_>>()
+        },
+        || {
+            rayon::join(
+                || {
+                    let mut o = vec![];
+                    t.lookup_failures(&mut o, cap);
+                    o
+                },
+                || {
+                    rayon::join(
+                        || {
+                            let mut o = vec![];
+                            t.copy_failures(&mut o, cap);
+                            o
+                        },
+                        || {
+                            let mut o = vec![];
+                            t.trash_failures(&mut o, cap);
+                            o
+                        },
+                    )
+                },
+            )
+        },
+    );
+    let mut out = gates;
+    out.extend(lookups);
+    out.extend(copies);
+    out.extend(trash);
+    out.truncate(cap.max(1));
+    out
 }
 
 impl TwoTables {
+    fn new(tables: Tables<F>, mock: MockProver<F>, base: Vec<F>) -> Self {
+        let cs = &tables.cs;
+        let mut beyond = false;
+        for l in cs.lookups() {
+            for e in l.input_expressions().iter().chain(l.table_expressions().iter()) {
+                beyond |= reads_instance(&tables, e);
+            }
+        }
+        for tr in cs.trashcans() {
+            beyond |= reads_instance(&tables, tr.selector());
+            for e in tr.constraint_expressions() {
+                beyond |= reads_instance(&tables, e);
+            }
+        }
+        // gates reading the committed column (0) are not touched by our edits; a query of any
+        // other instance column than 1 does not exist in this circuit, but be safe
+        let instance_rotations =
+            cs.instance_queries().iter().filter(|(c, _)| c.index() == 1).map(|(_, r)| r.0).collect();
+        TwoTables {
+            tables,
+            mock,
+            instance_beyond_gates: beyond,
+            instance_rotations,
+            base,
+        }
+    }
+
     fn set_instance(&mut self, inst: &[F]) {
         for (r, v) in inst.iter().enumerate() {
             self.tables.instance[1][r] = *v;
@@ -443,33 +531,41 @@ impl TwoTables {
         }
     }
 
-    /// (reference accepts, mock accepts). `full` forces evaluation of every constraint; without
-    /// it, and when no gate/lookup reads an instance column, only the instance-dependent
-    /// constraint classes are re-evaluated (copy constraints).
+    /// (reference accepts, mock accepts) for the instance currently set. `full` evaluates every
+    /// constraint. Otherwise only the constraints that read a cell differing from `base` (the
+    /// instance on which the full evaluation passed) are evaluated: gates and lookup inputs on
+    /// the rows `p - rotation` for every differing position p and every rotation at which the
+    /// instance column is queried, plus all copy constraints.
     fn verdict(&self, full: bool) -> (bool, bool, Vec<String>) {
         let mut notes = vec![];
-        let (r, m);
-        if full || self.instance_in_gates {
-            let f = self.tables.violations(4);
-            r = f.is_empty();
-            notes.extend(f.iter().map(|x| format!("ref:{}", x.class())));
-            let mv = self.mock.verify();
-            m = mv.is_ok();
-            if let Err(e) = mv {
-                notes.push(format!("mock:{} failures", e.len()));
-            }
+        let (f, mv);
+        if full || self.instance_beyond_gates {
+            f = ref_full(&self.tables, 4);
+            mv = self.mock.verify();
         } else {
-            let mut f = vec![];
-            self.tables.copy_failures(&mut f, 4);
-            r = f.is_empty();
-            notes.extend(f.iter().map(|x| format!("ref:{}", x.class())));
-            let mv = self.mock.verify_at_rows(std::iter::empty(), std::iter::empty());
-            m = mv.is_ok();
-            if let Err(e) = mv {
-                notes.push(format!("mock:{} failures", e.len()));
+            let n = self.tables.n as i64;
+            let mut rows = std::collections::BTreeSet::new();
+            for (p, b) in self.base.iter().enumerate() {
+                if self.tables.instance[1][p] != *b {
+                    for rot in &self.instance_rotations {
+                        let r = (p as i64 - *rot as i64).rem_euclid(n) as usize;
+                        if r < self.tables.usable_rows {
+                            rows.insert(r);
+                        }
+                    }
+                }
             }
+            let mut o = vec![];
+            self.tables.gate_failures(rows.iter().copied(), &mut o, 4);
+            self.tables.copy_failures(&mut o, 4);
+            f = o;
+            mv = self.mock.verify_at_rows(rows.iter().copied(), rows.iter().copied());
         }
-        (r, m, notes)
+        notes.extend(f.iter().map(|x| format!("ref:{}", x.class())));
+        if let Err(e) = &mv {
+            notes.push(format!("mock:{} failures", e.len()));
+        }
+        (f.is_empty(), mv.is_ok(), notes)
     }
 }
 
@@ -590,12 +686,10 @@ pub fn run_one(case: &InnerCase, spec: &RunSpec, rep: &mut Report) -> RunStats {
     rep.count(&format!("gadget.runs[{}]", spec.kind.class()));
     rep.count(&format!("gadget.runs[{}]", case.name));
 
-    let instance_in_gates = !tables.cs.instance_queries().is_empty();
-    let mut tt = TwoTables {
-        tables,
-        mock,
-        instance_in_gates,
-    };
+    let mut tt = TwoTables::new(tables, mock, own.instance.clone());
+    if tt.instance_beyond_gates {
+        rep.count("gadget.instance-read-by-lookup-or-trash(full evaluation per claim)");
+    }
 
     // ---- (D) what the circuit binds vs what the off-circuit verifier derives ----------------
     let bound = bound_instance(&tt.tables, 1, &[]);
@@ -608,7 +702,7 @@ pub fn run_one(case: &InnerCase, spec: &RunSpec, rep: &mut Report) -> RunStats {
         .iter()
         .flat_map(|(a, b)| [a, b])
         .filter_map(|c| match c {
-            mzv::engines::ref_eval::CellRef::Instance(1, r) => Some(*r),
+            CellRef::Instance(1, r) => Some(*r),
             _ => None,
         })
         .collect();
@@ -616,7 +710,7 @@ pub fn run_one(case: &InnerCase, spec: &RunSpec, rep: &mut Report) -> RunStats {
 
     // ---- (i)/(iii)/(iv): own accumulator must be accepted -------------------------------------
     let t0 = Instant::now();
-    let f = tt.tables.violations(6);
+    let f = ref_full(&tt.tables, 6);
     let r_acc = f.is_empty();
     st.ref_full_s = t0.elapsed().as_secs_f64();
     let t0 = Instant::now();
@@ -720,8 +814,8 @@ pub fn run_one(case: &InnerCase, spec: &RunSpec, rep: &mut Report) -> RunStats {
             continue;
         }
         tt.set_instance(&claim);
-        // the first alternative claim of every run is evaluated on all constraints
-        let (r, m, notes) = tt.verdict(first);
+        // the first alternative claim of every run is evaluated on all constraints when asked
+        let (r, m, notes) = tt.verdict(first && spec.full_first_claim);
         first = false;
         rep.eval();
         st.edits += 1;
@@ -768,4 +862,38 @@ pub fn run_plan(cases: &[InnerCase], plan: &[RunSpec], threads: usize, rep: &mut
         stats.push(s);
     }
     stats
+}
+
+/// Replays a verifier-gadget witness: rebuilds the inner verifying key from the case name
+/// (key generation is deterministic), synthesises the outer circuit with the recorded inner
+/// proof / public inputs and evaluates the recorded claimed instance.
+/// `Ok(true)`: satisfied (reference ∧ mock); also prints what the circuit binds.
+pub fn replay(w: &Json) -> Result<bool, String> {
+    let name = w["inner"].as_str().ok_or("inner")?;
+    let k = w["inner_k"].as_u64().ok_or("inner_k")? as u32;
+    let case = if name.starts_with("poseidon") { poseidon_case(k, 0)? } else { arith_case(k, 0)? };
+    let pi: Vec<F> = w["inner_pi"].as_array().ok_or("inner_pi")?.iter().filter_map(|s| s.as_str().and_then(unhexf)).collect();
+    let proof = hex::decode(w["inner_proof"].as_str().ok_or("inner_proof")?).map_err(|e| e.to_string())?;
+    let claimed: Vec<F> =
+        w["claimed_instance"].as_array().ok_or("claimed_instance")?.iter().filter_map(|s| s.as_str().and_then(unhexf)).collect();
+    match offcircuit(&case.vk, k, &pi, &proof) {
+        Ok(o) => println!(
+            "off-circuit: accumulator check = {}, equals claimed instance = {}",
+            o.check,
+            o.instance == claimed
+        ),
+        Err(e) => println!("off-circuit prepare: {e}"),
+    }
+    let circuit = OuterCircuit::new(&case.vk, &pi, &proof);
+    let cols = vec![vec![], claimed.clone()];
+    let tables = collect(OUTER_K, &circuit, &cols, CollectOpts::default())?;
+    let bound = bound_instance(&tables, 1, &[]);
+    let diff = (0..bound.len().max(claimed.len())).find(|i| bound.get(*i) != claimed.get(*i));
+    println!("first position where the circuit binds another value than claimed: {diff:?}");
+    let f = ref_full(&tables, 6);
+    println!("reference evaluator failures: {:?}", f.iter().map(|x| x.class()).collect::<Vec<_>>());
+    let mock = MockProver::run(OUTER_K, &circuit, cols).map_err(|e| format!("{e:?}"))?;
+    let m = mock.verify().is_ok();
+    println!("MockProver accepts: {m}");
+    Ok(f.is_empty() && m)
 }
